@@ -5,6 +5,7 @@
    [den g p n] is the denotation C02 states. *)
 From ACV Require Import Base.Strs Model.Graph Model.Peg Model.PathGrammar Model.PathSem Model.TemplatesRef.
 From ACV Require Import Proofs.PathSemProofs Extracted.Templates.
+From ACV Require Import Model.PathGen.
 
 (* ties: the Rego templates of a path step and of the clause aggregation, and the preamble they call,
    are the ones the model transcribes *)
@@ -73,6 +74,13 @@ Example C02_example :
   /\ model_strings ex_graph (Pred "@type" false false) "n0" = ["T"].
 Proof. vm_compute. repeat split. Qed.
 
+(* the link between the generated TEXT and the traversal the theorems above are about: the clauses of a path rule are the
+   clauses of PathSem.trav, statement by statement (by definition of the text model, which the run compares with the real
+   module line by line) *)
+Theorem C02_generated_clauses_follow_the_traversal : forall p fetch v,
+  path_rule_lines p fetch v = map (fun c => map render (emit v c 0 "")) (trav p fetch []).
+Proof. intros. unfold path_rule_lines, path_clauses. now rewrite map_map. Qed.
+
 Print Assumptions C02_tie_step_templates.
 Print Assumptions C02_tie_aggregate_templates.
 Print Assumptions C02_tie_preamble.
@@ -85,3 +93,4 @@ Print Assumptions C02_count_partial.
 Print Assumptions C02_count_refuted.
 Print Assumptions C02_den_equations.
 Print Assumptions C02_precedence.
+Print Assumptions C02_generated_clauses_follow_the_traversal.
